@@ -10,13 +10,13 @@ import (
 
 func init() {
 	register("C06", "Decides the front end's share of 'one verifiable, append-only history' — faithful relaying — as structural necessary conditions: "+
-		"(R1) every STH returned by LogSTHGetter.GetSTH is built in that call from the backend root just fetched: TreeSize ← root.TreeSize, Timestamp ← root.TimestampNanos / 1 000 000 (ns → ms), SHA256RootHash ← root.RootHash, Version V1, signed by signV1TreeHead with the log's signer, and a signing error or empty signature is an error; the root is fetched exactly once per call (by the GetLatestSignedLogRoot RPC in the getter or by the one function it calls that issues it), the request goes to this instance's backend client with this instance's log id whichever way these values reach the RPC, and the function issuing the RPC rejects backend errors, missing or garbled roots and hashes that are not 32 bytes and hands on the root decoded from the reply; "+
+		"(R1) every STH a success return of LogSTHGetter.GetSTH hands out (results read through the result variables of a function with a deferred call) is built in that call from ONE backend root value: TreeSize ← root.TreeSize, Timestamp ← root.TimestampNanos / 1 000 000 (ns → ms), SHA256RootHash ← root.RootHash, Version V1; that root resolves — through the success returns of any number of functions or function literals called on the way, and through a field of an object that a caller published in a cell of this instance, every store into that field being such a root fetched for the instance the object was published in and the publisher withdrawing the object on every way out (so a root found there belongs to a fetch still in flight, never to a finished one) — to the local a GetLatestSignedLogRoot reply was decoded into, the request going to this instance's backend client with this instance's log id whichever way these values reach the RPC, and the function issuing the RPC rejects backend errors, missing or garbled roots and hashes that are not 32 bytes; a root the getter merely remembered from an earlier call is not such a root; the errors of the fetch and of the signing block the success returns, and an empty signature is an error; every STH handed out is signed: signV1TreeHead with the log's signer was passed on every path to the return, or its signature is that of a tree head the getter remembered, which is decided safe only if the signature is reused under an equality test of every field the signature input is serialised from (read off ct.SerializeSTHSignatureInput: Version, TreeSize, Timestamp, SHA256RootHash; a field that is the same constant in every tree head built counts as equal), each compared after the served tree head's field was set, the remembered tree head is (a whole-value copy of) the tree head this function built, taken only after its signing succeeded with a non-empty signature, is written by nobody else and never modified in place, and the getter's cell is accessed under a mutex of the getter (lock discipline over the whole module); "+
 		"(R2) signV1TreeHead signs SHA-256 of SerializeSTHSignatureInput(*sth) with SHA-256 options and uses a cached signature only when the cache holds a signature for exactly those bytes; "+
 		"(R3) SignatureCache and ctutil.LogInfo state is accessed under its mutex; "+
 		"(R4) get-sth-consistency / get-proof-by-hash / get-entry-and-proof forward first/second, hash/tree_size, leaf_index/tree_size to the backend fields of the same meaning on this log and relay the proof hashes, leaf index and leaf bytes of the backend's reply (whichever function issues the RPC: the handler or the one function it calls for it), and the leaf get-entry-and-proof relays has gone through FixLogLeaf, its failure blocking success; first = 0 ⇒ empty proof; writeSTH serialises the STH it was given; "+
 		"(R5) the client library sends each argument under its RFC 6962 parameter name and VerifyInclusionAt verifies (index, size, leaf hash, path, root) in that order and returns the index only after verification; the leaf hash is SHA-256(0x00 ‖ leaf); "+
 		"(R6) the STH getter is chosen only in newLogInfo and get-sth reaches the backend only through it. "+
-		"NOT covered: append-only-ness and proof validity (backend + Merkle library), linkage of STHs across a history, sequencing, concurrency of handlers beyond the shared state of R3.",
+		"NOT covered: append-only-ness and proof validity (backend + Merkle library), linkage of STHs across a history, sequencing, concurrency of handlers beyond the shared state of R3 and the getter's remembered tree head; for a root shared between concurrent callers: that a waiter reads the shared root only after the fetch completed (channel / flag synchronisation), and how long before a waiter's own request the backend may have read a root that was in flight when the waiter arrived; aliasing between a remembered tree head and one handed to a caller (callers are assumed not to modify the STH they receive).",
 		runC06)
 }
 
